@@ -26,7 +26,31 @@ pub fn run(tape: &[u8], ctx: &mut Ctx) {
 	let outline = hist_outline(&h);
 	let mut sc = SerializerConfig::new(&h.case.crate_schema);
 	let mut accepted = Vec::new();
-	let bytes = {
+	// a third of the files are finished by dropping a writer that holds the sink by reference
+	// (documented: the pending block is flushed on drop), the rest through into_inner()
+	let by_drop = h.sync[0] % 3 == 0;
+	let mut borrowed_sink: Vec<u8> = Vec::new();
+	let bytes = if by_drop {
+		ctx.label("ending:drop(sink by reference)");
+		{
+			let mut w = match build_writer(&mut sc, &h, &mut borrowed_sink) {
+				Ok(w) => w,
+				Err(e) => {
+					ctx.violation("C05/writer-build-failed", format!("{outline}: {e}"));
+					return;
+				}
+			};
+			for (i, op) in h.ops.iter().enumerate() {
+				if let Err(e) = apply_op(&mut w, &h, op, &mut accepted) {
+					ctx.violation(format!("C05/write-failed/{}", h.codec.name()), format!("schema {} {outline}: op #{i} {op:?} failed: {e} (value lengths {:?})", h.case.json, h.encoded.iter().map(|e| e.len()).collect::<Vec<_>>()));
+					discard(w);
+					return;
+				}
+			}
+			drop(w);
+		}
+		std::mem::take(&mut borrowed_sink)
+	} else {
 		let mut w = match build_writer(&mut sc, &h, Vec::new()) {
 			Ok(w) => w,
 			Err(e) => {
